@@ -378,6 +378,16 @@ def case_wrappers(case):
                 pos = np.random.RandomState(0).uniform(0, 5, size=(2, 11))
                 out = _bits((gs.SRF(m, seed=3, mode_no=9)(pos), gs.SRF(m, generator="VectorField", seed=3, mode_no=9)(pos), gs.SRF(m, generator="Fourier", period=7.0, mode_no=4, seed=3)(pos)))
                 exp = None
+                # the kernels get the positions of *this* request (a request within numpy.allclose of the previous one, too)
+                big = pos + np.array([[4.5e5], [5.4e6]])
+                s1 = gs.SRF(m, seed=3, mode_no=9)
+                s1(big)
+                got = np.array(s1(big + 0.5))
+                g_ = s1.generator
+                iso = m.isometrize(big + 0.5)
+                ph = np.array(g_._cov_sample).T @ iso
+                ref_sum = np.sqrt(m.var / 9) * (np.array(g_._z_1) @ np.cos(ph) + np.array(g_._z_2) @ np.sin(ph))
+                r.close("SRF call == defining sum at the requested positions (second request close to the first)", got, ref_sum, rtol=1e-9, atol=1e-9, threads=nt, **extra)
             elif what == "krige_call":
                 m = gs.Exponential(dim=2, var=1.3, len_scale=2.0)
                 rng = np.random.RandomState(1)
